@@ -513,7 +513,8 @@ def MethodLawful (sn sub : Bool) (ret : Name) (vars : List Var) : Prop :=
 
 /-- The region outside every known finding of the method scope: the variable names are a supported
     scope (C18-F1..F5 as for any scope), no parameter is `self` (C18-F10) or `kwargs` (C18-F11), not
-    both `query` and `_query` are parameters (C18-F12), no parameter shadows `gql` or the result class (C18-F13). -/
+    both `query` and `_query` are parameters (C18-F12), no parameter shadows `gql`, the result class or the
+    serialize function of a custom scalar the method uses (C18-F13). -/
 def Supported_18m (sn : Bool) (ret : Name) (vars : List Var) : Prop :=
   Supported_18 sn .variable (vars.map (·.name)) ∧
   trigSelfParam sn vars = false ∧ trigKwargsParam sn vars = false ∧
@@ -587,7 +588,7 @@ theorem pascal_not_fixed (n : Name) : pascal n ∉ fixedMethodNames := by
     rw [hcap, hL] at this
     exact absurd this (by simp)
   simp only [fixedMethodNames, List.mem_cons, List.not_mem_nil, or_false] at hm
-  rcases hm with e | e | e | e | e | e | e | e | e | e | e <;>
+  rcases hm with e | e | e | e | e | e | e | e | e | e | e | e <;>
     first
       | (rw [e] at hnu; exact hnu (by decide))
       | (exact key _ _ e (by decide))
@@ -623,6 +624,7 @@ theorem method_exact (sn sub : Bool) (ret : Name) (vars : List Var)
   have hrr : ret ≠ L.r := by rcases hLr with e | e <;> rw [e] <;> exact hfix _ (by simp [fixedMethodNames])
   have hrd : ret ≠ L.d := by rcases hLd with e | e <;> rw [e] <;> exact hfix _ (by simp [fixedMethodNames])
   have hqs : L.q ≠ selfName := by rcases hLq with e | e <;> rw [e] <;> decide
+  have hsq : serName ≠ L.q := by rcases hLq with e | e <;> rw [e] <;> decide
   have hvq : L.v ≠ L.q := by rw [hL]; exact (locals_distinct (argNames sn vars)).1
   constructor
   · -- lawful ⇒ supported
@@ -655,20 +657,28 @@ theorem method_exact (sn sub : Bool) (ret : Name) (vars : List Var)
           rcases rename_cases (argNames sn vars) queryLocal with ⟨_, e⟩ | ⟨hout, _⟩
           · simp [hL, getVariableNames, e]
           · exact absurd ((mem_argNames sn vars _).mpr (Or.inr hq1)) hout
-        obtain ⟨vals, hread, hvars⟩ := runBody_variables sub L ret _ _ _ hlaw
+        obtain ⟨vals, hread, hvars, _⟩ := runBody_variables sub L ret _ _ _ _ _ hlaw
         have hmem : Val.text ∈ vals :=
           readAll_mem _ L.q .text (by simp [List.lookup]) _ vals hread (by rw [hLq']; exact hq2)
         simp only [specSent, Val.dict.injEq] at hvars
-        rw [← hvars.2] at hmem
+        have := applySer_inj _ _ _ hvars.2
+        rw [← this] at hmem
         exact text_not_mem_argVals _ _ hmem
     · cases h : trigGlobalShadow sn ret vars
       · rfl
       · exfalso
-        simp only [trigGlobalShadow, Bool.or_eq_true, List.contains_iff_mem] at h
-        rcases h with h | h
-        · rw [runBody_gql sub L ret _ _ h] at hlaw
+        simp only [trigGlobalShadow, Bool.or_eq_true, Bool.and_eq_true, List.contains_iff_mem] at h
+        rcases h with (h | h) | ⟨hany, h⟩
+        · rw [runBody_gql sub L ret _ _ _ _ h] at hlaw
           exact absurd hlaw (by simp)
-        · exact runBody_ret sub L ret _ _ _ hlaw hr1 hrq hrv hrr hrd h
+        · exact runBody_ret sub L ret _ _ _ _ _ hlaw hr1 hrq hrv hrr hrd h
+        · obtain ⟨_, _, _, hnone⟩ := runBody_variables sub L ret _ _ _ _ _ hlaw
+          have hnone' := hnone hany
+          rw [lookup_cons_ne _ _ _ _ hsq] at hnone'
+          obtain ⟨x, hx⟩ := env0_lookup_some serName (docParams sn vars) (by decide) h
+          simp only [env0] at hx
+          rw [hx] at hnone'
+          exact absurd hnone' (by simp)
   · -- supported ⇒ lawful
     rintro ⟨hsup, h10, h11, h12, h13⟩
     obtain ⟨hnodup, hall⟩ := hex.mpr hsup
@@ -681,9 +691,13 @@ theorem method_exact (sn sub : Bool) (ret : Name) (vars : List Var)
       exact (hall n hn).1
     have hc : defCompiles sn vars = true :=
       (defCompiles_iff sn vars).mpr ⟨hok, hself, hkw, by rw [hdp]; exact hnodup⟩
-    simp only [trigGlobalShadow, Bool.or_eq_false_iff] at h13
-    have hgql : gqlName ∉ docParams sn vars := contains_false h13.1
-    have hretp : ret ∉ docParams sn vars := contains_false h13.2
+    simp only [trigGlobalShadow, Bool.or_eq_false_iff, Bool.and_eq_false_iff] at h13
+    have hgql : gqlName ∉ docParams sn vars := contains_false h13.1.1
+    have hretp : ret ∉ docParams sn vars := contains_false h13.1.2
+    have hser : (serFlags vars).any id = false ∨ serName ∉ docParams sn vars := by
+      rcases h13.2 with h | h
+      · exact Or.inl h
+      · exact Or.inr (contains_false h)
     have hq : L.q ∉ docParams sn vars := by
       rcases rename_cases (argNames sn vars) queryLocal with ⟨hin, e⟩ | ⟨hout, e⟩
       · have e' : L.q = '_' :: queryLocal := by simp [hL, getVariableNames, e]
@@ -702,7 +716,8 @@ theorem method_exact (sn sub : Bool) (ret : Name) (vars : List Var)
     unfold MethodLawful runMethod
     rw [hc]
     simp only [if_true]
-    rw [← hL, runBody_ok sub L ret _ _ hq hqs hself (by rw [hdp]; exact hnodup) hvq hgql hretp hr1 hr2 hrq hrv hrr hrd]
+    have hreads : dictReads sn vars = docParams sn vars := rfl
+    rw [← hL, hreads, runBody_ok sub L ret _ _ _ hq hqs hself (by rw [hdp]; exact hnodup) hvq hgql hretp hr1 hr2 hrq hrv hrr hrd hser hsq]
     simp [specSent, docParams]
 
 /-- with snake-casing on no parameter begins with an underscore: the capture region C18-F12 is empty
@@ -735,6 +750,19 @@ theorem capture_needs_snake_off (vars : List Var) (hg : ∀ v ∈ vars, GName v.
   · simp only [trigQueryCapture, Bool.and_eq_true, List.contains_iff_mem] at h
     exact absurd h.2 key
 
+/-- `method_reads_bound`: every name the emitted method body READS is bound when it is read - a parameter, a
+    helper local assigned earlier, or a module global - for EVERY variable list, flag combination and method
+    kind, inside the finding regions too: the dict values read the parameters (`dictReads = docParams`:
+    `_get_dict_value` is given the processed name, with and without a serialize call), the helper locals are
+    read after their assignment.  So a call never raises NameError. -/
+theorem method_reads_bound (sn sub : Bool) (ret : Name) (vars : List Var) (n : Name) :
+    dictReads sn vars = docParams sn vars ∧ runMethod sn sub ret vars ≠ .error (.nameError n) := by
+  refine ⟨rfl, ?_⟩
+  unfold runMethod
+  split
+  · exact runBody_no_nameError sub _ ret _ _ _ _ (fun p hp => hp) n
+  · intro h; exact absurd h (by simp)
+
 /-- the partial theorem in its usual form -/
 theorem method_partial (sn sub : Bool) (ret : Name) (vars : List Var)
     (hg : ∀ v ∈ vars, GName v.name) (hnd : (vars.map (·.name)).Nodup) (hret : ret ∉ fixedMethodNames)
@@ -749,7 +777,7 @@ def Method_full : Prop :=
 /-- `Method_full_false`: nothing refuses `$self`, and the method does not compile -/
 theorem Method_full_false : ¬ Method_full := by
   intro h
-  have hl := h false false "Q".toList [⟨"self".toList, false⟩] (by decide +kernel) (by decide +kernel)
+  have hl := h false false "Q".toList [⟨"self".toList, false, false⟩] (by decide +kernel) (by decide +kernel)
   have := (method_exact false false _ _ (by decide +kernel) (by decide +kernel) (pascal_not_fixed _)).mp hl
   revert this
   decide +kernel
@@ -757,34 +785,39 @@ theorem Method_full_false : ¬ Method_full := by
 /-- the four method-scope findings on the model, evaluated: what the generated method does -/
 theorem method_witnesses :
     -- C18-F10: `$self` / (snake) `$Self`: duplicate argument
-    runMethod false false "Q".toList [⟨"self".toList, false⟩] = .error .syntaxError ∧
-    runMethod true false "Q".toList [⟨"x".toList, true⟩, ⟨"Self".toList, false⟩] = .error .syntaxError ∧
+    runMethod false false "Q".toList [⟨"self".toList, false, false⟩] = .error .syntaxError ∧
+    runMethod true false "Q".toList [⟨"x".toList, true, false⟩, ⟨"Self".toList, false, false⟩] = .error .syntaxError ∧
     -- C18-F11: `$kwargs` / (snake) `$_kwargs`
-    runMethod false false "Q".toList [⟨"kwargs".toList, false⟩] = .error .syntaxError ∧
-    runMethod true true "Q".toList [⟨"_kwargs".toList, false⟩, ⟨"x".toList, false⟩] = .error .syntaxError ∧
+    runMethod false false "Q".toList [⟨"kwargs".toList, false, false⟩] = .error .syntaxError ∧
+    runMethod true true "Q".toList [⟨"_kwargs".toList, false, false⟩, ⟨"x".toList, false, false⟩] = .error .syntaxError ∧
     -- C18-F12: `$query` + `$_query`, snake off: the operation text is sent as the value of `$_query`
-    runMethod false false "Q".toList [⟨"query".toList, false⟩, ⟨"_query".toList, false⟩] =
+    runMethod false false "Q".toList [⟨"query".toList, false, false⟩, ⟨"_query".toList, false, false⟩] =
       .ok ⟨.text, .dict ["query".toList, "_query".toList] [.arg 0, .text],
            .parsed (.data (.resp .text (.dict ["query".toList, "_query".toList] [.arg 0, .text])))⟩ ∧
     -- C18-F13: `$gql` (snake: `$Gql`) is called instead of the module function; `$Q` in `query Q` (snake off) hides the result class
-    runMethod true true "Q".toList [⟨"Gql".toList, true⟩] = .error (.notCallable gqlName) ∧
-    runMethod false false "Q".toList [⟨"Q".toList, true⟩] = .error (.noAttribute "Q".toList) :=
-  ⟨rfl, rfl, rfl, rfl, rfl, rfl, rfl⟩
+    runMethod true true "Q".toList [⟨"Gql".toList, true, false⟩] = .error (.notCallable gqlName) ∧
+    runMethod false false "Q".toList [⟨"Q".toList, true, false⟩] = .error (.noAttribute "Q".toList) ∧
+    runMethod false false "Q".toList [⟨"serialize_dt".toList, true, true⟩] = .error (.notCallable serName) ∧
+    -- a renamed variable of a custom scalar with a serialize function: the PARAMETER is what gets serialized
+    runMethod true false "Q".toList [⟨"createdAfter".toList, true, true⟩, ⟨"class".toList, false, true⟩] =
+      .ok ⟨.text, .dict ["createdAfter".toList, "class".toList] [.ser (.arg 0), .ser (.arg 1)],
+           .parsed (.data (.resp .text (.dict ["createdAfter".toList, "class".toList] [.ser (.arg 0), .ser (.arg 1)])))⟩ :=
+  ⟨rfl, rfl, rfl, rfl, rfl, rfl, rfl, rfl, rfl⟩
 
 /-- the neighbours that work: `$query` alone is renamed around; `$response`+`$_response` is harmless
     (the helper is bound only after the dict was built); with snake-casing `$_query` alone is just `query` -/
 theorem method_neighbours :
-    Supported_18m false "Q".toList [⟨"query".toList, false⟩, ⟨"variables".toList, true⟩] ∧
-    Supported_18m false "Q".toList [⟨"response".toList, false⟩, ⟨"_response".toList, false⟩, ⟨"data".toList, false⟩, ⟨"_data".toList, false⟩] ∧
-    Supported_18m true "Q".toList [⟨"_query".toList, false⟩, ⟨"Data".toList, false⟩] ∧
-    Supported_18m false "Q".toList [⟨"Self".toList, false⟩, ⟨"_kwargs".toList, false⟩, ⟨"Gql".toList, false⟩] := by
+    Supported_18m false "Q".toList [⟨"query".toList, false, false⟩, ⟨"variables".toList, true, false⟩] ∧
+    Supported_18m false "Q".toList [⟨"response".toList, false, false⟩, ⟨"_response".toList, false, false⟩, ⟨"data".toList, false, false⟩, ⟨"_data".toList, false, false⟩] ∧
+    Supported_18m true "Q".toList [⟨"_query".toList, false, false⟩, ⟨"Data".toList, false, false⟩] ∧
+    Supported_18m false "Q".toList [⟨"Self".toList, false, false⟩, ⟨"_kwargs".toList, false, false⟩, ⟨"Gql".toList, false, false⟩] := by
   decide +kernel
 
 /-- non-vacuity of `method_exact` / `method_partial` -/
-example : (∀ v ∈ ([⟨"query".toList, false⟩, ⟨"userId".toList, true⟩] : List Var), GName v.name) ∧
-    (([⟨"query".toList, false⟩, ⟨"userId".toList, true⟩] : List Var).map (·.name)).Nodup ∧
+example : (∀ v ∈ ([⟨"query".toList, false, false⟩, ⟨"userId".toList, true, false⟩] : List Var), GName v.name) ∧
+    (([⟨"query".toList, false, false⟩, ⟨"userId".toList, true, false⟩] : List Var).map (·.name)).Nodup ∧
     pascal "getUser".toList ∉ fixedMethodNames ∧
-    Supported_18m true (pascal "getUser".toList) [⟨"query".toList, false⟩, ⟨"userId".toList, true⟩] := by
+    Supported_18m true (pascal "getUser".toList) [⟨"query".toList, false, false⟩, ⟨"userId".toList, true, false⟩] := by
   decide +kernel
 
 end MethodScope
